@@ -1,6 +1,8 @@
 package vc
 
 import (
+	"regexp"
+	"go/types"
 	"encoding/json"
 	"fmt"
 	"os"
@@ -196,21 +198,68 @@ func RunCheck(o CheckOpts) int {
 	}
 	os.RemoveAll(outDir)
 	srs := SolveAll(g, header, results, outDir, o.Par, timeout, o.Tier == "thorough")
+	for _, r := range results {
+		// assumptions registered while the per-function headers were assembled (instance axioms about literals)
+		for _, a := range r.Assumed {
+			assumptions[a] = true
+		}
+	}
 	// static checks
 	staticRes := g.RunStatic(o, spec)
 	// recorded weakenings of the deepcopy predicate are findings, not silent exceptions
 	usesDeepcopy := map[string]bool{} // packages with a deepcopy postcondition among this property's functions
+	copied := map[string]bool{}       // named struct types (pkg.Name) reachable from the values those functions copy
 	for _, k := range keys {
 		for _, en := range g.CS.Funcs[k].Ensures {
 			if strings.Contains(en.Text, "deepcopy(") {
 				usesDeepcopy[g.CS.Funcs[k].Pkg] = true
+				if fn := g.FuncByKey(k); fn != nil {
+					// the values named in deepcopy(a, b): results and parameters by name; anything else
+					// (an expression) falls back to every parameter and result of the function
+					res := fn.Signature.Results()
+					all := false
+					for _, m := range deepcopyArgRe.FindAllStringSubmatch(en.Text, -1) {
+						for _, a := range m[1:] {
+							a = strings.TrimSpace(a)
+							found := false
+							if strings.HasPrefix(a, "result") {
+								for i := 0; i < res.Len(); i++ {
+									reachableStructs(res.At(i).Type(), copied)
+								}
+								found = true
+							}
+							for _, p := range fn.Params {
+								if p.Name() == a {
+									reachableStructs(p.Type(), copied)
+									found = true
+								}
+							}
+							if !found {
+								all = true
+							}
+						}
+					}
+					if all {
+						for _, p := range fn.Params {
+							reachableStructs(p.Type(), copied)
+						}
+						for i := 0; i < res.Len(); i++ {
+							reachableStructs(res.At(i).Type(), copied)
+						}
+					}
+				}
 			}
 		}
 	}
 	if len(usesDeepcopy) > 0 {
 		var sk []string
 		for k := range g.CS.Shared {
-			if usesDeepcopy[g.CS.SharedPkg[k]] {
+			// a shared field T.f weakens only the copies of values that contain a T
+			tn := k
+			if i := strings.Index(k, "."); i >= 0 {
+				tn = k[:i]
+			}
+			if usesDeepcopy[g.CS.SharedPkg[k]] && copied[g.CS.SharedPkg[k]+"."+tn] {
 				sk = append(sk, k)
 			}
 		}
@@ -356,7 +405,7 @@ func RunCheck(o CheckOpts) int {
 	assum = append(assum,
 		"tool chain: go/packages, go/types, go/ssa (x/tools v0.29.0) give a faithful SSA of the source; z3/cvc5 are sound for unsat; the VC generator govc itself",
 		"integers are mathematical (no wrap-around); float64 is modelled as exact reals (no rounding, no NaN/Inf)",
-		"strings are an uninterpreted sort with length/concat axioms; distinct literals are distinct",
+		"strings are an uninterpreted sort with length/concat axioms (length of a concatenation, substring and byte-at over a concatenation, left cancellation a++b = a++c => b = c, the leading decimal of itoa(n)++t is n when t does not start with a digit); distinct literals are distinct; per VC: length and first byte of each literal, litA++litB = litAB and literal prefixes as ground facts",
 		"no allocation failure or stack exhaustion; single-threaded execution within one call",
 		"fresh memory is zero and unreachable from pre-existing objects (allocation counter model)")
 	var fnNames []string
@@ -469,7 +518,12 @@ func (g *Gen) CoverChecks(header string, results []*FnResult, outDir string, par
 			defer func() { <-sem; done <- i }()
 			file := filepath.Join(outDir, sanitizeFile(j.name)+".smt2")
 			os.WriteFile(file, []byte(j.text), 0o644)
-			st, _, _ := runSolver(solvers[0], file, 2)
+			// two instantiation strategies, 1 s each: a contradiction among quantified assumptions that E-matching
+			// finds in a fraction of a second can take the default (MBQI) configuration far longer, and vice versa
+			st, _, _ := runSolver(z3NoMBQI, file, 1)
+			if st != "unsat" {
+				st, _, _ = runSolver(solvers[0], file, 1)
+			}
 			out[i] = CoverResult{Name: j.name, OK: st != "unsat", Detail: "path condition and assumptions: " + st}
 		}(i, j)
 	}
@@ -477,4 +531,35 @@ func (g *Gen) CoverChecks(header string, results []*FnResult, outDir string, par
 		<-done
 	}
 	return out
+}
+
+var deepcopyArgRe = regexp.MustCompile(`deepcopy\(([^,()]+),([^,()]+)\)`)
+
+// reachableStructs adds the named struct types reachable from t (through pointers, slices, arrays, maps and
+// struct fields) to out, keyed "pkgname.TypeName".
+func reachableStructs(t types.Type, out map[string]bool) {
+	switch u := t.(type) {
+	case *types.Named:
+		if _, ok := u.Underlying().(*types.Struct); ok && u.Obj().Pkg() != nil {
+			k := u.Obj().Pkg().Name() + "." + u.Obj().Name()
+			if out[k] {
+				return
+			}
+			out[k] = true
+		}
+		reachableStructs(u.Underlying(), out)
+	case *types.Pointer:
+		reachableStructs(u.Elem(), out)
+	case *types.Slice:
+		reachableStructs(u.Elem(), out)
+	case *types.Array:
+		reachableStructs(u.Elem(), out)
+	case *types.Map:
+		reachableStructs(u.Key(), out)
+		reachableStructs(u.Elem(), out)
+	case *types.Struct:
+		for i := 0; i < u.NumFields(); i++ {
+			reachableStructs(u.Field(i).Type(), out)
+		}
+	}
 }
